@@ -16,6 +16,9 @@ BUILT = {
     'C07': ('exhaustive enumeration of a finite table space against a reference model (explicit-state, on the real code)',
             'Complete enumeration of the finite opcode-slot space (1792 slots x 2 operand fillings x 5 addresses x 10 additional-opcode settings x wrap) on the real decoders, timing table and all four simulators, against an independent algorithmic reference decoder.',
             'Trusted: mc/refs/z80ref.py (reference decoder/timing from the Zilog manual), CPython, gcc. Operand bytes beyond two fillings per slot are covered by C02.'),
+    'C19': ('exhaustive enumeration of both contention delay tables and of a bounded placement x frame-position space per opcode slot, on the real contended simulators against a reference bus-cycle/ULA model',
+            'Both delay tables read back completely (a NOP at every one of the 69888/70908 frame positions), and every opcode slot x operand fillings x placements of PC, data pointers, stack and port address (ROM, contended, uncontended, 0xC000 with even/odd bank) x I register x both condition outcomes x every phase of the wait pattern at both ends of the contended window (first, middle, last line; frame edges), on CMIOSimulator and CCMIOSimulator: state equals the reference semantics, T delta equals documented duration plus the sum over the reference bus cycles of the published wait pattern, Python == C.',
+            'Trusted: mc/refs/z80ref.py bus-cycle lists per instruction class (published contention table) and mc/refs/ula.py (published wait pattern and frame layouts). Frame positions outside the enumerated set (quick: ~90; thorough: four whole lines + edges) are covered only by the table read-back with a NOP. Interrupt acceptance is not part of this property.'),
 }
 
 PENDING_REASON = 'check not built yet in this session (work in progress; DESIGN.md section 8 gives the build order)'
